@@ -161,13 +161,40 @@ def text_corruptions(text):
 def plan(ctx):
   n = len(cases(ctx.thorough))
   nsh = min(n, 128)
-  return [('corrupt', ctx.thorough, i, nsh) for i in range(nsh)]
+  return [('corrupt', ctx.thorough, i, nsh) for i in range(nsh)] + [('udf',)]
+
+
+# Unbound variables in helpers that are injected into the body of a `-->` function (compiled on the engines that have functions): the
+# helper's variable must not be taken for bound because the function has a parameter of the same name.
+UDF_PROGRAMS = [
+  ('Scale(a) = a * k;\nF(k) --> Scale(k + 1);\nT(F(x)) :- A(x);', 'invalid', ['k']),
+  ('Near(a) :- a < k + 1;\nF(k, a) --> (if Near(a) then 1 else 0);\nT(F(x, x)) :- A(x);', 'invalid', ['k']),
+  ('Scale(a, k) = a * k;\nF(k) --> Scale(k + 1, k);\nT(F(x)) :- A(x);', 'valid', []),
+  ('Scale(a) = a * 2;\nF(k) --> Scale(k + 1);\nT(F(x)) :- A(x);', 'valid', []),
+  ('F(k) --> k + w;\nT(F(x)) :- A(x);', 'invalid', ['w']),
+]
+
+
+def work_udf():
+  stats = dict(corrupted=0, asserted=0, comparisons=0, compiles=0, not_asserted=0, base_programs=0); viol = []
+  for dialect in ('bigquery', 'psql'):
+    for body, expect, names in UDF_PROGRAMS:
+      text = '@Engine("%s");\nA(1); A(2);\n%s\n' % (dialect, body)
+      out = impl.Compiled(text).sql('T'); stats['compiles'] += 1; stats['asserted'] += 1; stats['comparisons'] += 1; stats['corrupted'] += 1
+      if expect == 'invalid' and out[0] == 'script':
+        viol.append(dict(sig='invalid-program-compiled/unbound-variable-in-helper-of-a-function', what='SQL was produced although %s is unbound | %s' % (names, semcheck.oneline(text)), case=dict(text=text, operator='udf')))
+      elif expect == 'invalid' and out[0] != 'diag':
+        viol.append(dict(sig='internal-error/udf/%s' % out[1], what='rejected with %s instead of a diagnostic | %s' % (out[1], semcheck.oneline(text)), case=dict(text=text, operator='udf')))
+      elif expect == 'valid' and out[0] != 'script':
+        viol.append(dict(sig='valid-function-program-rejected/%s' % dialect, what='%s %s | %s' % (out[1], out[2][:120], semcheck.oneline(text)), case=dict(text=text, operator='udf')))
+  return dict(stats=stats, viol=viol, samples=[], keys=dict(outcomes=set()))
 
 
 def strip_colors(s): return re.sub(r'\x1b\[[0-9;]*m', '', s)
 
 
 def work(task):
+  if task[0] == 'udf': return work_udf()
   _, thorough, shard, nsh = task
   impl.accelerate_library_parse()
   cs = cases(thorough)
